@@ -1303,6 +1303,7 @@ type c15Out struct {
 	Bus        []*c15BusCall    `json:"bus"`
 	Reg        [][]interface{}  `json:"reg"`
 	Strings    int              `json:"strings"`
+	Table      []string         `json:"table"` // the interned strings (names, topics, payloads, value renderings), for readable replays
 }
 
 func cmdC15(args []string) error {
@@ -1409,6 +1410,7 @@ func cmdC15(args []string) error {
 		res.RegCases = append(res.RegCases, c)
 	}
 	res.Strings = len(in.Tab)
+	res.Table = in.Tab
 	return writeJSON(*out, res)
 }
 
